@@ -19,7 +19,7 @@ m = {
  "setup_cmd": "./bin/setup",
  "hooks": {
   "guard": "crustabri_verif",
-  "enable": "RUSTFLAGS=\"--cfg crustabri_verif\" (set by bin/setup and checks/lib.py when building harness/ against /repo). One add-only source hook: src/utils/mod.rs re-exports the crate-private ConnectedComponentsComputer as utils::verif_hooks::* under #[cfg(crustabri_verif)] (used by the label-route tie of C04); everything else is observed through the public API",
+  "enable": "RUSTFLAGS=\"--cfg crustabri_verif\" (set by bin/setup and checks/lib.py when building harness/ against /repo). Two add-only source hooks, both re-exports of crate-private items under #[cfg(crustabri_verif)]: utils::verif_hooks::{ConnectedComponentsComputer, ConnectedComponentsIterator} (label-route tie of C04) and sat::verif_hooks::{BufferedSatSolver, DimacsInstanceRead} (in-process tie of C15/C16); everything else is observed through the public API",
   "baseline_off_cmd": "cd /repo && cargo test --workspace --no-fail-fast --offline",
   "source_commits": SOURCE_COMMITS,
   "add_only": True,
